@@ -15,7 +15,7 @@ on every run (extract/store.go → Generated/StoreFacts.lean).
 * `store.Find`: `s.find(f)` sees the filter only and its scan loop has no `break`; sort; then the window arithmetic,
   extracted statement by statement and run on 64-bit integers with explicit wrap-around (`C12.windowBy`) – equal to the
   model's `window` for every skip, limit and length an `int` can hold; the earlier shape overflowed (`C12.pinned_window_overflows`).
-* `patch` works on `doc.Mutable()` and returns `doc.Immutable()`.
+* `patch` works on `doc.Immutable().Mutable()` (a private copy also of a mutable document) and returns `doc.Immutable()`.
 * outlines of the functions the model follows statement by statement (`conflict`, `index`, `unindex`, `segment.Index`
   with its rollback, `section.Scan`, `section.Range`, `Find`, `find`, `patch`).
 -/
@@ -373,9 +373,11 @@ theorem C12.pinned_window_overflows :
 /-! ## `patch` -/
 
 /-- `patch` edits a private mutable copy and returns it frozen: the stored document it was given is not changed by a
-later `patch` of the result (the model's `patch` is a pure function on values). -/
+later `patch` of the result (the model's `patch` is a pure function on values). The copy is taken from the IMMUTABLE view
+(`doc.Immutable().Mutable()`): `Mutable()` of a document that is itself a mutable map – one handed to Insert as such – is
+that same map, which the pinned `doc = doc.Mutable()` then edited in place before Swap ran its checks (repo c5fc5ad). -/
 theorem C12.patch_freezes_result :
-    patchFirst = "doc = doc.Mutable()" ∧ patchReturn = "return doc.Immutable(), nil" := by
+    patchFirst = "doc = doc.Immutable().Mutable()" ∧ patchReturn = "return doc.Immutable(), nil" := by
   decide
 
 /-! ## outlines -/
@@ -639,7 +641,7 @@ theorem C12.find_patch_outline_as_modelled :
       "      docs = append(docs, doc)",
       "return docs, nil"] ∧
     outline_patch = [
-      "doc = doc.Mutable()",
+      "doc = doc.Immutable().Mutable()",
       "for k, value := range update.Range()",
       "  key, ok := k.(types.String)",
       "  if !ok",
